@@ -115,12 +115,13 @@ def coqc_scratch(name, text, timeout=600):
     """Compile a scratch .v file (cases / Print Assumptions) against the built theories.
     Returns (rc, stdout)."""
     os.makedirs(BUILD, exist_ok=True)
+    name = f"{name}_p{os.getpid()}"       # concurrent runs of the same check must not share scratch files
     path = os.path.join(BUILD, name + ".v")
     with open(path, "w") as f:
         f.write(text)
     rc, out = sh(f"ulimit -s unlimited 2>/dev/null; timeout {timeout} coqc -Q {COQ}/theories Basyx "
                  f"-w -notation-overridden {path}", cwd=BUILD, timeout=timeout + 30)
-    for ext in (".vo", ".vok", ".vos", ".glob"):
+    for ext in (".v", ".vo", ".vok", ".vos", ".glob"):
         try:
             os.remove(os.path.join(BUILD, name + ext))
         except FileNotFoundError:
@@ -244,7 +245,7 @@ def run_mismatch_shards(tag, prelude, case_terms, eval_fn, shard=250, timeout=90
     shards = [case_terms[i:i + shard] for i in range(0, len(case_terms), shard)]
     names = []
     for k, sh_cases in enumerate(shards):
-        name = f"cases_{tag}_{k}"
+        name = f"cases_{tag}_p{os.getpid()}_{k}"
         body = [prelude, "Import ListNotations.", "Open Scope Z_scope.",
                 "Definition cases := ["]
         body.append(";\n".join(sh_cases))
